@@ -274,7 +274,46 @@ fn run_slice_seq(r: &mut Rng, ctors: &[u64], ops: &[(u64, usize, usize)]) -> (Ve
         }
         check_all!(trace.last().unwrap());
     }
-    // drop everything (random order), then account
+    // drop everything (random order), then account. In half of the sequences the harness lets go of its own Arcs first,
+    // so that the Cow values are the last holders: their drops must then free the shared blocks and every element.
+    if fail.is_none() && r.chance(1, 2) {
+        let weaks: Vec<std::sync::Weak<[Elem]>> = arcs.iter().map(Arc::downgrade).collect();
+        let lens: Vec<isize> = arcs.iter().map(|a| a.len() as isize).collect();
+        arcs.clear();
+        arc_expect.clear();
+        let mut refs: Vec<usize> = vec![0; weaks.len()];
+        for (_, mk, _) in pool.iter() {
+            if let MK::Shared(a) = mk {
+                refs[*a] += 1;
+            }
+        }
+        // Arcs nobody references any more died with the harness's handle
+        for (a, n) in refs.iter().enumerate() {
+            if *n == 0 {
+                owned_elems -= lens[a];
+            }
+        }
+        while !pool.is_empty() && fail.is_none() {
+            let i = r.usize(pool.len());
+            let (cow, mk, content) = pool.swap_remove(i);
+            drop(cow);
+            match mk {
+                MK::Owned => owned_elems -= content.len() as isize,
+                MK::Shared(a) => {
+                    refs[a] -= 1;
+                    if refs[a] == 0 {
+                        owned_elems -= lens[a];
+                        if weaks[a].upgrade().is_some() {
+                            fail = Some(Fail { sig: "C14:arc-reference-not-released".into(), what: format!("the last Cow sharing Arc #{} (len {}) was dropped but the Arc is still alive", a, lens[a]) });
+                        }
+                    }
+                }
+                MK::Borrowed => {}
+            }
+            check_all!("a final drop with the Cow values as last holders");
+        }
+        trace.push("harness released its Arcs first; Cow values dropped as last holders".into());
+    }
     if fail.is_none() {
         while !pool.is_empty() {
             let i = r.usize(pool.len());
@@ -501,6 +540,35 @@ fn run_str_seq(r: &mut Rng, ctors: &[u64], ops: &[(u64, usize, usize)]) -> (Vec<
             }
         }
         check_all!(trace.last().unwrap());
+    }
+    if fail.is_none() && r.chance(1, 2) {
+        // the harness lets go of its own Arcs first: the Cow values are the last holders
+        let weaks: Vec<std::sync::Weak<str>> = arcs.iter().map(Arc::downgrade).collect();
+        arcs.clear();
+        arc_expect.clear();
+        let mut refs: Vec<usize> = vec![0; weaks.len()];
+        for (_, mk, _) in pool.iter() {
+            if let MK::Shared(a) = mk {
+                refs[*a] += 1;
+            }
+        }
+        while !pool.is_empty() && fail.is_none() {
+            let i = r.usize(pool.len());
+            let (cow, mk, _) = pool.swap_remove(i);
+            drop(cow);
+            if let MK::Shared(a) = mk {
+                refs[a] -= 1;
+                if refs[a] == 0 && weaks[a].upgrade().is_some() {
+                    fail = Some(Fail { sig: "C14:arc-reference-not-released".into(), what: format!("the last Cow sharing Arc<str> #{} was dropped but the Arc is still alive", a) });
+                }
+            }
+        }
+        for (a, w) in weaks.iter().enumerate() {
+            if fail.is_none() && w.upgrade().is_some() {
+                fail = Some(Fail { sig: "C14:arc-reference-not-released".into(), what: format!("every value was dropped but Arc<str> #{} is still alive", a) });
+            }
+        }
+        trace.push("harness released its Arcs first; Cow values dropped as last holders".into());
     }
     if fail.is_none() {
         while !pool.is_empty() {
